@@ -202,13 +202,22 @@ class KindInterp(DictInterp):
                     else:
                         argv.append(self.ev(a))
                 return recv.methods[c.func.attr](*argv)
-        if isinstance(c.func, ast.Attribute) and not c.keywords and not any(isinstance(a, ast.Starred) for a in c.args):
+        if isinstance(c.func, ast.Attribute):
             try:
                 recv = self.ev(c.func.value)
             except Unsupported:
                 recv = None
             if c.func.attr in getattr(recv, "_xv_methods", ()):
-                return getattr(recv, c.func.attr)(*[self.ev(a) for a in c.args])
+                argv = []
+                for a in c.args:
+                    if isinstance(a, ast.Starred):
+                        v_ = self.ev(a.value)
+                        if not isinstance(v_, (list, tuple)):
+                            raise Unsupported("* of a non-sequence")
+                        argv.extend(v_)
+                    else:
+                        argv.append(self.ev(a))
+                return getattr(recv, c.func.attr)(*argv, **{k.arg: self.ev(k.value) for k in c.keywords if k.arg})
         if fn == "zip" and len(c.args) == 1 and isinstance(c.args[0], ast.Starred) and not c.keywords:
             v = self.ev(c.args[0].value)
             if isinstance(v, (list, tuple)) and all(isinstance(x, (list, tuple)) for x in v):
